@@ -105,6 +105,7 @@ OBJECT_FORM = {
     "allclose(nearby,tight)": lambda v: v.isclose(v.scale(1.0000001), rtol=1e-12, atol=1e-12),
     "allclose(self)": lambda v: v.isclose(v),
 }
+WITNESS = {}           # for empty operands: the object-backend result of the same operation on one sample vector (tells the expected kind of result)
 OP_FILTER = None        # optional predicate on operation names: restricts the lattice to the operations of one property (set before the pool forks)
 
 
@@ -137,6 +138,27 @@ def compare(F, tag, res, expected, opname, layout_is_array):
         return e
     f = first(expected)
     if f is None:
+        # no element to compare (empty array / only missing values): the type-level contract remains - learn the kind of result from a witness
+        w = WITNESS.get("result")
+        if w is None:
+            return
+        if isinstance(w, vector.Vector):
+            okv = isinstance(res, vector.Vector)
+            F.check("C03", f"empty-operand/vector-result/{tag}", okv, type(res).__name__)
+            if okv:
+                F.check("C05", f"empty-operand/array-result-system/{tag}", AR.sysof(res) == AR.sysof(w), dict(got=AR.sysof(res), expected=AR.sysof(w)))
+                F.check("C05", f"empty-operand/array-result-flavor/{tag}", isinstance(res, vector.Momentum) == isinstance(w, vector.Momentum), type(res).__name__)
+                try:
+                    F.check("C03", f"empty-operand/length/{tag}", len(res) == len(expected), dict(got=len(res), expected=len(expected)))
+                except Exception:
+                    pass
+        elif opname.startswith(("allclose", "numpy.allclose")):
+            F.check("C03", f"empty-operand/allclose-of-nothing-is-true/{tag}", isinstance(res, (bool, np.bool_)) and bool(res) is True, repr(res))
+        else:
+            try:
+                F.check("C03", f"empty-operand/scalar-result-length/{tag}", not isinstance(res, vector.Vector) and len(res) == len(expected), type(res).__name__)
+            except Exception as e:
+                F.check("C03", f"empty-operand/scalar-result-length/{tag}", False, f"{type(e).__name__}: {str(e)[:100]}")
         return
     if isinstance(f, vector.Vector):
         if not isinstance(res, vector.Vector):
@@ -226,7 +248,15 @@ def run_unary(F, system, mom, layouts, seed, extras_layouts=("ak-jagged", "ak-re
             except Exception as e:
                 F.check("C03", f"object-reference/{tag}", False, f"object backend raises {type(e).__name__}: {e}")
                 continue
+            WITNESS.pop("result", None)
+            if layout in ("np(0)", "ak-empty"):
+                try:
+                    with np.errstate(all="ignore"):
+                        WITNESS["result"] = OBJECT_FORM.get(name, op)(AR.obj_of(system, mom, AR.one(system, rng)))
+                except Exception:
+                    pass
             compare(F, tag, res, expected, name, True)
+            WITNESS.pop("result", None)
             if ak is not None and isinstance(res, (ak.Array, ak.Record)) and isinstance(res, vector.Vector) and isinstance(v, (ak.Array, ak.Record)):
                 # C18: one-vector operations carry every non-coordinate field through unchanged; structure preserved
                 if ext:
